@@ -72,7 +72,9 @@ fn filter_record(kinds: &[&str], bad: Option<usize>, rng: &mut StdRng) -> Value 
     let vals: Vec<String> = p.attrs.iter().map(|a| obs::hex(&a.value)).collect();
     let mut res = Vec::new();
     for o in 0..N_OPTS {
-        let dec = codec::decoder_for(o, &key);
+        // which of the two builder call orders is used depends on the case only (replayable)
+        let alt = (kinds.len() + bad.map_or(0, |b| b + 1) + o) % 2 == 1;
+        let dec = codec::decoder_for_alt(o, &key, alt);
         let r = catch_unwind(AssertUnwindSafe(|| dec.decode(&bytes)));
         match r {
             Err(_) => res.push(json!({"ok":false,"panic":true,"idx":[],"unk":[],"size":-1})),
